@@ -172,14 +172,90 @@ func RuleCRange(c *core.Ctx) {
 		c.Anchor(rule, "directives.Range.Start/End")
 		return
 	}
-	allowed := map[string]string{
-		"(*lib/syntax/scanner.Scope).Range":      "the one place where a range is made from a scope start and the scanner position",
-		"(*lib/syntax/scanner.Scanner).Advance":  "position of a decoding error: Start = End = offset",
-		"(*lib/syntax/directives.Range).Extend":  "union of two ranges: can only widen",
-		"(*lib/syntax/bayes.Model).inferAccount": "synthetic range over the inferred account's own text: [0, len(text))",
+	offsetF := p.Field(pkgScanner, "Scanner", "offset")
+	scopeStart := p.Field(pkgScanner, "Scope", "Start")
+	// a bound is a position if it is, through phis only, one of: the scanner's
+	// offset, a scope's start, a bound of an existing range, the constant 0, or
+	// the length of a text — never arithmetic on those
+	var isPosition func(v ssa.Value, seen map[ssa.Value]bool) (bool, string)
+	isPosition = func(v ssa.Value, seen map[ssa.Value]bool) (bool, string) {
+		v = core.Strip(v)
+		if seen[v] {
+			return true, ""
+		}
+		seen[v] = true
+		switch x := v.(type) {
+		case *ssa.Const:
+			if k, ok := core.ConstInt(x); ok && k == 0 {
+				return true, ""
+			}
+			return false, "the constant " + x.String()
+		case *ssa.UnOp:
+			if x.Op == token.MUL {
+				if fa, ok := x.X.(*ssa.FieldAddr); ok {
+					switch core.FieldOf(fa) {
+					case offsetF, scopeStart, startF, endF:
+						return true, ""
+					}
+				}
+				if al, ok := x.X.(*ssa.Alloc); ok {
+					for _, st := range core.AllStoresToCell(al) {
+						if ok, why := isPosition(st.Val, seen); !ok {
+							return false, why
+						}
+					}
+					return true, ""
+				}
+			}
+		case *ssa.Field:
+			switch core.FieldOf(x) {
+			case startF, endF, scopeStart:
+				return true, ""
+			}
+		case *ssa.Phi:
+			for _, e := range x.Edges {
+				if ok, why := isPosition(e, seen); !ok {
+					return false, why
+				}
+			}
+			return true, ""
+		case *ssa.Call:
+			if b, ok := x.Call.Value.(*ssa.Builtin); ok && b.Name() == "len" {
+				if bt, ok := x.Call.Args[0].Type().Underlying().(*types.Basic); ok && bt.Kind() == types.String {
+					return true, ""
+				}
+			}
+			if callee := x.Call.StaticCallee(); callee != nil && callee.Blocks != nil && p.InModule(callee) && callee.Signature.Results().Len() == 1 && len(seen) < 50 {
+				// a getter: judged by what it returns
+				all, why := true, ""
+				core.EachInstr(callee, func(ins ssa.Instruction) {
+					if ret, ok := ins.(*ssa.Return); ok && all {
+						if ok2, w := isPosition(ret.Results[0], seen); !ok2 {
+							all, why = false, w
+						}
+					}
+				})
+				if all {
+					return true, ""
+				}
+				return false, why
+			}
+			if b, ok := x.Call.Value.(*ssa.Builtin); ok && (b.Name() == "min" || b.Name() == "max") {
+				for _, a := range x.Call.Args {
+					if ok, why := isPosition(a, seen); !ok {
+						return false, why
+					}
+				}
+				return true, ""
+			}
+		}
+		return false, describeValue(p, v)
 	}
 	n := 0
 	for _, fn := range p.SrcFuncs() {
+		if !p.InModule(fn) {
+			continue
+		}
 		core.EachInstr(fn, func(ins ssa.Instruction) {
 			st, ok := ins.(*ssa.Store)
 			if !ok {
@@ -196,27 +272,11 @@ func RuleCRange(c *core.Ctx) {
 			n++
 			name := core.FuncName(fn)
 			key := name + ":store to Range." + fv.Name()
-			if why, ok := allowed[name]; ok {
-				// inferAccount: Start = 0 and End = len(Text)
-				if strings.Contains(name, "inferAccount") {
-					okVal := false
-					if k, isC := core.ConstInt(st.Val); isC && k == 0 && fv == startF {
-						okVal = true
-					}
-					if call, isCall := st.Val.(*ssa.Call); isCall && fv == endF {
-						if b, isB := call.Call.Value.(*ssa.Builtin); isB && b.Name() == "len" {
-							okVal = true
-						}
-					}
-					if !okVal {
-						c.Ob(rule, key, st.Pos(), name, core.Violated, "the synthetic account range is not [0, len(text))")
-						return
-					}
-				}
-				c.Ob(rule, key, st.Pos(), name, core.Discharged, why)
-				return
+			if ok, why := isPosition(st.Val, map[ssa.Value]bool{}); ok {
+				c.Ob(rule, key, st.Pos(), name, core.Discharged, "the bound is a scanner position, a scope start, a bound of an existing range, 0 or the length of a text (no arithmetic)")
+			} else {
+				c.Ob(rule, key, st.Pos(), name, core.Violated, "a range bound is computed ("+why+") instead of being taken from the scanner's position or an existing range: the range need not lie within the text, within its parent, or cover what was consumed")
 			}
-			c.Ob(rule, key, st.Pos(), name, core.Violated, "a range bound is written outside the scanner's scope mechanism: the range need not lie within the text, within its parent, or cover what was consumed")
 		})
 	}
 	c.Floor(rule, 4)
